@@ -340,4 +340,170 @@ theorem TInv.withOutcome (h : TInv net c s) (o : Option Outcome) : TInv net c { 
 
 end
 
+section
+variable {net : Net} {c : Cert} {s : NState}
+
+/-- mailbox-local obligations when thread `t` (the reader of subscriber `k` of `m`) updates only that subscriber entry -/
+theorem BothObl.subUpd (hT : TreeNet net c) (h : TInv net c s) {t : Nat} {th : Thread} {ts ts' : TSt} {m k : Nat}
+    {sp : MBSpec} {a : AMB} {sb : ASub} (g : ASub → ASub)
+    (hsp : net.mbs[m]? = some sp) (hm : s.mbs[m]? = some a) (hk : a.subs[k]? = some sb) (hrd : c.reader m k = t)
+    (o : ThrObl net c s (fun x => x = m) (killedNew s m (a.modSub k g)) t th ts ts')
+    (hb : (g sb).buffered ≤ (g sb).next ∧ (g sb).next ≤ a.nSent)
+    (hwt : ∀ x, (g sb).waiting = some x → x = (g sb).next ∧ (g sb).buffered = 0 ∧ ∃ rest, ts'.prog = .read m k :: rest)
+    (hrk : ts'.inEpi = false → ts'.prog.count (.read m k) + ((g sb).next - (g sb).buffered) = tot net c m) :
+    BothObl net c s t th ts ts' m a (a.modSub k g) := by
+  have hf := modSub_fields a k g
+  have hlenS := h.lenS m sp a hsp hm
+  have hklt : k < sp.drive.length := by rw [← hlenS]; exact (List.getElem?_eq_some_iff.mp hk).1
+  have hother : ∀ k2 sb2, k ≠ k2 → a.subs[k2]? = some sb2 → c.reader m k2 ≠ t := by
+    intro k2 sb2 hne hk2 heq
+    have hk2lt : k2 < sp.drive.length := by rw [← hlenS]; exact (List.getElem?_eq_some_iff.mp hk2).1
+    exact hne (reader_inj hT hsp hklt hk2lt (by rw [hrd, heq]))
+  have hmlt : m < net.mbs.length := (List.getElem?_eq_some_iff.mp hsp).1
+  have hns : c.sender m ≠ t := by rw [← hrd]; exact (reader_not_sender hT hsp hklt).symm
+  apply BothObl.of hm o
+  · intro hkl; rw [hf.2.2.1]; exact hkl
+  · exact hf.2.2.2.2
+  · intro k2 sb' h2
+    rw [modSub_subs] at h2
+    by_cases hkk : k = k2
+    · subst hkk; simp [hk] at h2; subst h2; rw [hf.1]; exact hb
+    · simp [hkk] at h2; rw [hf.1]; exact h.sub m a k2 sb' hm h2
+  · intro k2 sb' x h2 hw
+    rw [modSub_subs] at h2
+    by_cases hkk : k = k2
+    · subst hkk; simp [hk] at h2; subst h2
+      obtain ⟨h1, h2', h3⟩ := hwt x hw
+      exact ⟨h1, h2', by simp only [hrd, if_true]; exact h3⟩
+    · simp [hkk] at h2
+      obtain ⟨h1, h2', h3⟩ := h.wait m a k2 sb' x hm h2 hw
+      exact ⟨h1, h2', by simp only [hother k2 sb' hkk h2, if_false]; exact h3⟩
+  · intro k2 sb' h2
+    rw [modSub_subs] at h2
+    by_cases hkk : k = k2
+    · subst hkk; simp [hk] at h2; subst h2
+      simp only [hrd, if_true]; exact hrk
+    · simp [hkk] at h2
+      simp only [hother k2 sb' hkk h2, if_false]
+      intro tsr hr hin; exact h.rd m a k2 sb' tsr hm h2 hr hin
+  · intro _
+    obtain ⟨h1, h2, h3⟩ := h.snd m a hmlt hm
+    rw [hf.1, hf.2.1]
+    refine ⟨h1, h2, ?_⟩
+    simp only [hns, if_false]
+    exact h3
+
+end
+
+section
+variable {net : Net} {c : Cert} {s : NState}
+
+theorem setThr_same (s : NState) (t : Nat) (ts : TSt) (h : s.thr[t]? = some ts) : s.setThr t ts = s := by
+  obtain ⟨hlt, he⟩ := List.getElem?_eq_some_iff.mp h
+  simp only [NState.setThr]
+  have : s.thr.set t ts = s.thr := by rw [← he]; exact List.set_getElem_self hlt
+  rw [this]
+
+theorem TInv.step_read (hT : TreeNet net c) (h : TInv net c s) {t : Nat} {th : Thread} {ts : TSt} {m k : Nat} {rest : List Instr}
+    {s' : NState} (hth : net.threads[t]? = some th) (hts : s.thr[t]? = some ts) (hp : ts.prog = .read m k :: rest)
+    (heff : Effect net s t ts (.read m k) s') : TInv net c s' := by
+  obtain ⟨hin, hsuf, hrd, sp, a0, sb0, hsp, ha0, hsb0⟩ := head_read hT h hth hts hp
+  have hbuf := h.sub m a0 k sb0 ha0 hsb0
+  have hrd0 := h.rd m a0 k sb0 ts ha0 hsb0 (by rw [hrd]; exact hts) hin
+  rw [hp, count_cons_self] at hrd0
+  have hK : ∀ (a' : AMB), (a0.killed = true → a'.killed = true) → ∀ m', s.killedMb m' → killedNew s m a' m' :=
+    fun a' hmono m' => killedNew_of_old ha0 hmono m'
+  cases heff with
+  | advance _ hr _ _ _ _ _ =>
+    rcases hr m k rfl with h1 | ⟨a', h1, h2⟩
+    · rw [ha0] at h1; cases h1
+    · rw [ha0] at h1; cases h1; rw [hsb0] at h2; cases h2
+  | readPop _ _ a sb hm hk hb =>
+    rw [ha0] at hm; cases hm; rw [hsb0] at hk; cases hk
+    apply h.both hth hts ha0
+    have hf := modSub_fields a0 k (fun sb => { sb with buffered := sb.buffered - 1 })
+    apply BothObl.subUpd hT h _ hsp ha0 hsb0 hrd
+    · exact ThrObl.advance hT h hth hts hp _ _ (hK _ (by intro x; rw [hf.2.2.1]; exact x))
+        (by intro m' k' he; cases he; rfl) (by intro m' he; rcases he with he | he <;> cases he)
+        (by intro m' he; cases he) (by intro m' he; cases he) (by intro u he; cases he)
+    · simp only; omega
+    · intro x hw
+      simp only at hw
+      have := (h.wait m a0 k sb0 x ha0 hsb0 hw).2.1
+      omega
+    · intro _
+      simp only [TSt.advance, hp, List.tail_cons]
+      omega
+  | readKilled _ _ a sb hm hk hb hkill =>
+    rw [ha0] at hm; cases hm; rw [hsb0] at hk; cases hk
+    apply h.both hth hts ha0
+    have hf := modSub_fields a0 k (fun sb => { sb with waiting := none })
+    have hkn : killedNew s m (a0.modSub k fun sb => { sb with waiting := none }) m := by
+      unfold killedNew; simp only [if_true]; rw [hf.2.2.1]; exact hkill
+    apply BothObl.subUpd hT h _ hsp ha0 hsb0 hrd
+    · apply ThrObl.raise hT h hth hts hp _ _ hin
+      · intro m' k' he; cases he; rfl
+      · intro _ hlt hout
+        -- a sink reads only its own mailbox
+        cases hT.kind hth with
+        | main hmain _ => omega
+        | sender mo _ ho _ => rw [hout] at ho; cases ho
+        | sink _ _ hok _ =>
+          rcases hok.2.2.2.1 _ (suffix_head_mem hsuf) with h1 | h1 | h1
+          · cases h1; exact hkn
+          · simp [Instr.isFail] at h1
+          · simp [Instr.isDie] at h1
+    · simp only; exact hbuf
+    · intro x hw; simp at hw
+    · intro hin'; simp [TSt.raise, hin] at hin'
+  | readTake _ _ a sb hm hk hb hkill hlt =>
+    rw [ha0] at hm; cases hm; rw [hsb0] at hk; cases hk
+    apply h.both hth hts ha0
+    have hf := modSub_fields a0 k (fun sb => { sb with buffered := a0.nSent - sb.next - 1, next := a0.nSent, waiting := none })
+    apply BothObl.subUpd hT h _ hsp ha0 hsb0 hrd
+    · exact ThrObl.advance hT h hth hts hp _ _ (hK _ (by intro x; rw [hf.2.2.1]; exact x))
+        (by intro m' k' he; cases he; rfl) (by intro m' he; rcases he with he | he <;> cases he)
+        (by intro m' he; cases he) (by intro m' he; cases he) (by intro u he; cases he)
+    · simp only; omega
+    · intro x hw; simp at hw
+    · intro _
+      simp only [TSt.advance, hp, List.tail_cons]
+      omega
+  | readWait _ _ a sb hm hk hb hkill hlt hw =>
+    rw [ha0] at hm; cases hm; rw [hsb0] at hk; cases hk
+    have hf := modSub_fields a0 k (fun sb => { sb with waiting := some sb.next })
+    have : TInv net c ((s.modMB m fun a => a.modSub k fun sb => { sb with waiting := some sb.next }).setThr t ts) := by
+      apply h.both hth hts ha0
+      apply BothObl.subUpd hT h _ hsp ha0 hsb0 hrd
+      · -- the thread does not move
+        obtain ⟨p0, p1, p2⟩ := h.pc t th ts hth hts
+        refine ⟨⟨p0, p1, p2⟩, ?_, ?_, ?_, ?_, ?_, ?_, fun x => x⟩
+        · intro m2 a2 k2 sb2 x hne hm2 hk2 hw2 hr2
+          obtain ⟨_, _, tsr, rest', hr1, hr2'⟩ := h.wait m2 a2 k2 sb2 x hm2 hk2 hw2
+          rw [hr2, hts] at hr1; cases hr1; exact ⟨rest', hr2'⟩
+        · intro m2 a2 k2 sb2 _ hm2 hk2 hr2 hin2
+          exact h.rd m2 a2 k2 sb2 ts hm2 hk2 (by rw [hr2]; exact hts) hin2
+        · intro m2 a2 _ hm2lt hm2 hs2
+          exact (h.snd m2 a2 hm2lt hm2).2.2 ts (by rw [hs2]; exact hts)
+        · intro own r hin2 hexc
+          obtain ⟨k1, k2⟩ := h.kills t th ts own r hth hts hin2 hexc
+          have hmono := hK (a0.modSub k fun sb => { sb with waiting := some sb.next }) (by intro x; rw [hf.2.2.1]; exact x)
+          exact ⟨fun m' hm' => (k1 m' hm').imp id (hmono m'), fun ho m' hm' => (k2 ho m' hm').imp id (hmono m')⟩
+        · intro r h1 h2 hexc
+          exact hK _ (by intro x; rw [hf.2.2.1]; exact x) _ (h.sinkK t ts r h1 h2 hts hexc)
+        · intro hmain u hu
+          exact h.joins u ts hu (by rw [← hmain]; exact hts)
+      · simp only; exact hbuf
+      · intro x hwx
+        simp only [Option.some.injEq] at hwx
+        exact ⟨hwx.symm, hb, rest, hp⟩
+      · intro _
+        simp only
+        have := h.rd m a0 k sb0 ts ha0 hsb0 (by rw [hrd]; exact hts) hin
+        exact this
+    rw [setThr_same _ _ _ (by simpa using hts)] at this
+    exact this
+
+end
+
 end Strax.Net
